@@ -130,8 +130,13 @@ func c16BidBody(kind string, ts uint64, sk *e2types.BLSPrivateKey, signer *e2typ
 		parent = phase0.Hash32{0xff}
 	}
 	value := uint256.NewInt(1234567890)
-	if kind == "zerovalue" {
+	switch kind {
+	case "zerovalue":
 		value = uint256.NewInt(0)
+	case "higher":
+		value = uint256.NewInt(2 * 1234567890)
+	case "lower": // the builder withdrew: a later, smaller bid
+		value = uint256.NewInt(1234567890 / 2)
 	}
 	var builder phase0.BLSPubKey
 	copy(builder[:], sk.PublicKey().Marshal())
@@ -259,6 +264,8 @@ type c16BidInst struct {
 	clock  *c16SlotClock
 	relay1 *c16Server
 	relay2 *c16Server
+	polls1 *c16Polls // what relay 1 / relay 2 answer to the successive polls of a call (per slot asked for)
+	polls2 *c16Polls
 	gate   *c16Gate
 	mu     sync.Mutex
 	pcs    map[int]*beaconblockproposer.ProposerConfig
@@ -272,8 +279,10 @@ func c16NewBidInst(ctx context.Context, first map[string]string) c16Instance {
 	in := &c16BidInst{kind: first["strat"], clock: c16NewSlotClock(), relay1: c16NewServer(), relay2: c16NewServer(),
 		gate: &c16Gate{}, pcs: map[int]*beaconblockproposer.ProposerConfig{}}
 	in.relay1.Gate("/eth/v1/builder/header/", in.gate)
-	sk2 := c16RelayKey(2)
-	in.relay2.Set("/eth/v1/builder/header/", c16BidAnswer("valid", in.clock, sk2, sk2))
+	in.polls1 = c16NewPolls("relay1", c16RelayKey(1), in.clock)
+	in.polls2 = c16NewPolls("relay2", c16RelayKey(2), in.clock)
+	in.relay1.Set("/eth/v1/builder/header/", in.polls1.Answer())
+	in.relay2.Set("/eth/v1/builder/header/", in.polls2.Answer())
 	var err error
 	switch in.kind {
 	case "best":
@@ -316,12 +325,7 @@ func (in *c16BidInst) Close() {
 
 // Prepare: what relay 1 answers, and the proposer configuration that comes with this auction.
 func (in *c16BidInst) Prepare(k int, sh map[string]string) {
-	sk1, other := c16RelayKey(1), c16RelayKey(9)
-	signer := sk1
-	if sh["bid"] == "badsig" {
-		signer = other
-	}
-	in.relay1.Set("/eth/v1/builder/header/", c16BidAnswer(sh["bid"], in.clock, sk1, signer))
+	in.polls1.Script(c16CallSlot(k), c16PollSeq(sh))
 	relays := []*beaconblockproposer.RelayConfig{{
 		Address:      c16RelayAddress(sh["addr"], in.relay1.URL()),
 		FeeRecipient: bellatrix.ExecutionAddress{0x11, 0x22, 0x33},
@@ -353,6 +357,8 @@ func (in *c16BidInst) Invoke(ctx context.Context, k int, _ map[string]string) c1
 	pc := in.pcs[k]
 	in.mu.Unlock()
 	slot := c16CallSlot(k)
+	in.polls1.Attach(ctx, slot)
+	in.polls2.Attach(ctx, slot)
 	in.clock.Begin(slot)
 	res, err := in.strat.BuilderBid(ctx, slot, c16ParentHash, c16AccountPubkey(1), pc, map[phase0.BLSPubKey]*blockrelay.BuilderConfig{})
 	// goroutines the strategy started may still be decoding an answer: let them finish inside this call
